@@ -922,6 +922,14 @@ where
             .collect();
     }
 
+    #[cfg(feature = "echo_verif")]
+    {
+        crate::echo_verif::record_units(units);
+        if let Some(script) = crate::echo_verif::current_script() {
+            return execute_work_queue_scripted(units, &script, &resolve_store);
+        }
+    }
+
     let next_unit = AtomicUsize::new(0);
 
     std::thread::scope(|s| {
@@ -990,6 +998,56 @@ where
 /// `footprint_enforce_release`), executes directly without validation.
 // Result is always Ok when enforcement is compiled out (unsafe_graph), but the
 // signature must stay Result for the enforcement path.
+/// Verification hook: sequential execution of a scripted unit-to-worker assignment.
+///
+/// Each scripted worker owns a private delta and runs its units in the given order through the
+/// same `execute_item_enforced` path as the threaded queue. Units the script does not mention
+/// are appended to worker 0 so that no work is silently dropped.
+#[cfg(feature = "echo_verif")]
+fn execute_work_queue_scripted<'state, F>(
+    units: &[WorkUnit],
+    script: &[Vec<usize>],
+    resolve_store: &F,
+) -> Vec<WorkerResult>
+where
+    F: Fn(&WarpId) -> Option<&'state GraphStore> + Sync,
+{
+    let mut plan: Vec<Vec<usize>> = script
+        .iter()
+        .map(|w| w.iter().copied().filter(|i| *i < units.len()).collect())
+        .collect();
+    if plan.is_empty() {
+        plan.push(Vec::new());
+    }
+    let mut seen = vec![false; units.len()];
+    for w in &mut plan {
+        w.retain(|i| !std::mem::replace(&mut seen[*i], true));
+    }
+    for (i, s) in seen.iter().enumerate() {
+        if !*s {
+            plan[0].push(i);
+        }
+    }
+    plan.into_iter()
+        .map(|worker_units| {
+            let mut delta = TickDelta::new();
+            for unit_idx in worker_units {
+                let unit = &units[unit_idx];
+                let Some(store) = resolve_store(&unit.warp_id) else {
+                    return WorkerResult::MissingStore(unit.warp_id);
+                };
+                for (idx, item) in unit.items.iter().enumerate() {
+                    match execute_item_enforced(store, item, idx, unit, delta) {
+                        Ok(next_delta) => delta = next_delta,
+                        Err(poisoned) => return WorkerResult::Poisoned(poisoned),
+                    }
+                }
+            }
+            WorkerResult::Success(delta)
+        })
+        .collect()
+}
+
 #[allow(clippy::unnecessary_wraps)]
 #[inline]
 fn execute_item_enforced(
